@@ -63,7 +63,12 @@ def cases(seed, tier):
         chosen = rng0.sample(combos, NCASES[tier])
     for i, (sub, style, ai, bclass) in enumerate(chosen):
         rng = gen.case_rng(seed, ID, i)
-        yield {'kind': 'clean', 'profile': mk(sub, style, ALGSETS[ai], bclass, rng, hostkey_via_gex=rng.random() < 0.1), 'bclass': bclass,
+        prof = mk(sub, style, ALGSETS[ai], bclass, rng, hostkey_via_gex=rng.random() < 0.1)
+        r2 = gen.case_rng(seed, ID, i, 'per-alg')
+        if len(ALGSETS[ai]) == 2 and r2.random() < 0.3:
+            # the two group-exchange algorithms are served from different moduli sets: each is measured and rated on its own
+            prof['gex']['sizes_by_alg'] = {r2.choice(ALGSETS[ai]): sorted(r2.sample(SIZES, r2.randrange(1, 4)))}
+        yield {'kind': 'clean', 'profile': prof, 'bclass': bclass,
                'opts': rng.choice([['-n'], ['-n'], ['-j'], ['-n', '-v'], ['-n', '-b']]), 'net': gen.rand_net(rng) if rng.random() < 0.5 else {'rtt_us': 100},
                'knobs': gen.rand_knobs(rng), 'pseed': rng.getrandbits(32)}
     for i in range(NFAULTY[tier] // 4):
